@@ -402,7 +402,59 @@ func withMaterial(m modeling.Mesh, tex string) modeling.Mesh {
 	return m.SetMaterial(modeling.Material{Name: "textured", ColorTextureURI: &uri})
 }
 
+// writtenNames: the PLY vertex property names the configuration writes for d, in file order (a replica of
+// MeshWriter.Write's table walk: qualifying writers, then the unspecified loops by dimension 4,3,2,1 with TexCoord's
+// special case).  PLY property names must be unique within an element: a description whose configuration writes one
+// name twice (a user attribute called x next to Position, s or t next to a point cloud's TexCoord, one attribute name
+// in two dimensions that both reach the unspecified loop: Position x3 and Position x4 under a custom table give
+// Position_0..2 twice) is outside the property's quantifier ("well-formed mesh") and is never generated.
+func writtenNames(d Desc) []string {
+	var names []string
+	claimed := map[string]bool{}
+	for _, w := range tableOf(d) {
+		if hasAttr(d, w.Dim, w.Attr) {
+			names = append(names, w.Names...)
+			claimed[fmt.Sprintf("%d/%s", w.Dim, w.Attr)] = true
+		}
+	}
+	if d.Kind == "default" || (d.Kind == "custom" && d.Unspec) {
+		for _, a := range sortedAttrs(d) {
+			if claimed[fmt.Sprintf("%d/%s", a.Dim, a.Name)] {
+				continue
+			}
+			switch {
+			case a.Dim == 2 && a.Name == "TexCoord":
+				if d.Topo != "triangle" {
+					names = append(names, "s", "t")
+				}
+			case a.Dim == 1:
+				names = append(names, a.Name)
+			default:
+				for j := 0; j < a.Dim; j++ {
+					names = append(names, fmt.Sprintf("%s_%d", a.Name, j))
+				}
+			}
+		}
+	}
+	return names
+}
+
+func duplicateName(d Desc) string {
+	seen := map[string]bool{}
+	for _, n := range writtenNames(d) {
+		if seen[n] {
+			return n
+		}
+		seen[n] = true
+	}
+	return ""
+}
+
 func makeCase(d Desc) []hx.Case {
+	if n := duplicateName(d); n != "" {
+		fmt.Fprintf(os.Stderr, "c04: description writes the property name %q twice: outside the property's domain, skipped\n", n)
+		return nil
+	}
 	c := hx.Case{Kind: "mesh", Desc: d}
 	var classes [3]string
 	if d.Kind != "custom" {
@@ -718,7 +770,16 @@ func genReservedUsers(r *hx.Rng, d *Desc, used map[string]bool, prop map[string]
 	return added
 }
 
+// genDesc draws descriptions until the configuration writes every property name once (see writtenNames)
 func genDesc(r *hx.Rng) Desc {
+	for {
+		if d := genDescRaw(r); duplicateName(d) == "" {
+			return d
+		}
+	}
+}
+
+func genDescRaw(r *hx.Rng) Desc {
 	if r.Chance(3, 100) {
 		return genNoProps(r)
 	}
